@@ -18,6 +18,7 @@ package mapping_test
 // children, ...) nothing is compared.
 
 import (
+	"encoding/json"
 	"fmt"
 	"math"
 	"math/big"
@@ -117,6 +118,11 @@ func (o *c05Oracle) walkStruct(fs []c05Fld, obj *c05JV, val reflect.Value, path 
 			if f.Opt {
 				// all-or-nothing semantics of optional embedded structs: UNSPECIFIED
 				o.unspec("embedded-optional")
+				sub := c05NewOracle()
+				sub.walkStruct(f.T.F, obj, reflect.Value{}, p)
+				for id := range sub.panicPred {
+					o.panicPred[id] = true
+				}
 				continue
 			}
 			ev := fv
@@ -143,6 +149,17 @@ func (o *c05Oracle) walkStruct(fs []c05Fld, obj *c05JV, val reflect.Value, path 
 			o.value(&f.T, f, ms[0], fv, 0, p)
 		default:
 			o.unspec("duplicate-key")
+			// which duplicate wins is not specified; still collect the panic predicates of each
+			for _, m := range ms {
+				if m.T == "null" {
+					continue
+				}
+				sub := c05NewOracle()
+				sub.value(&f.T, f, m, reflect.Value{}, 0, p)
+				for id := range sub.panicPred {
+					o.panicPred[id] = true
+				}
+			}
 		}
 	}
 }
@@ -268,6 +285,12 @@ func (o *c05Oracle) value(t *c05Typ, f *c05Fld, v *c05JV, fv reflect.Value, pos 
 			if pos != 0 {
 				o.panicPred["fillslice-nonslice-panic"] = true
 			}
+			if pos == 0 && v.T == "str" && t.E.P {
+				var sl []any
+				if json.NewDecoder(strings.NewReader(v.S)).Decode(&sl) == nil {
+					o.panicPred["fillslicefromstring-ptr-elem-panic"] = true
+				}
+			}
 			return
 		}
 		hasNull := false
@@ -292,10 +315,10 @@ func (o *c05Oracle) value(t *c05Typ, f *c05Fld, v *c05JV, fv reflect.Value, pos 
 		}
 		for i := range v.L {
 			if v.L[i].T == "null" {
-				if t.E.K == "slice" {
-					// skipped by the code; nothing specified
-				}
-				continue
+				continue // skipped by the code; nothing specified
+			}
+			if v.L[i].T == "obj" && t.E.K != "map" && t.E.K != "struct" && t.E.K != "slice" {
+				o.panicPred["fillslicevalue-object-elem-panic"] = true
 			}
 			var ev reflect.Value
 			if fv.IsValid() {
@@ -380,6 +403,9 @@ func (o *c05Oracle) scalar(t *c05Typ, f *c05Fld, v *c05JV, fv reflect.Value, pos
 			if constrained {
 				o.hot = true
 			}
+			if v.T == "num" && str && len(f.Opts) > 0 && pos == 0 {
+				o.panicPred["stringoption-number-options-panic"] = true
+			}
 			return
 		}
 		if f != nil && len(f.Opts) > 0 {
@@ -442,6 +468,9 @@ func (o *c05Oracle) scalar(t *c05Typ, f *c05Fld, v *c05JV, fv reflect.Value, pos
 			}
 			if str {
 				o.notPlain = true // a bare number for a ",string" field: accepted by the code, not demanded
+				if len(f.Opts) > 0 && pos == 0 {
+					o.panicPred["stringoption-number-options-panic"] = true
+				}
 			}
 		case v.T == "str" && str:
 			text = v.S
@@ -616,6 +645,11 @@ func (o *c05Oracle) constraints(f *c05Fld, text string, exact *big.Rat, _ float6
 	if f.Rng != nil {
 		in := true
 		edge := false
+		if (f.Rng.L == "" || f.Rng.R == "") && exact.Cmp(new(big.Rat).SetFloat64(math.MaxFloat64)) >= 0 || exact.Cmp(new(big.Rat).SetFloat64(-math.MaxFloat64)) <= 0 {
+			// an open end is represented by +-MaxFloat64 in the code; a value AT that
+			// magnitude is rejected when the bracket is exclusive. Allowed ("fails with an error").
+			o.notPlain = true
+		}
 		if f.Rng.L != "" {
 			l, ok := new(big.Rat).SetString(f.Rng.L)
 			if !ok {
@@ -702,6 +736,9 @@ var c05PanicSig = map[string][]string{
 	"fillslice-struct-elem-panic": {"interface conversion: interface {} is", "not map[string]interface {}"},
 	"generatemap-ptr-elem-panic":  {"reflect.Value.SetMapIndex: value of type"},
 	"duration-number-panic":       {"interface conversion: interface {} is json.Number, not string"},
+	"stringoption-number-options-panic": {"interface conversion: interface {} is json.Number, not string"},
+	"fillslicevalue-object-elem-panic":  {"reflect: Key of non-map type"},
+	"fillslicefromstring-ptr-elem-panic": {"reflect.Set: value of type []"},
 }
 
 func c05PanicKnown(o *c05Oracle, msg string) string {
